@@ -47,6 +47,46 @@ func (l *ListLayout) Sep(i int, prev, next string) string {
 	return "\n"
 }
 
+// GlueLayout is ListLayout, except that a comment candidate placed right after a token
+// that ends in a letter A-Z, a digit or a slash is written as it is, without asking the
+// reference lexer (the asset rule [A-Z/0-9]+ then swallows the comment's first slash).
+// With Pad set, a blank is written before such a comment instead.
+type GlueLayout struct {
+	Seps  []string
+	Pad   bool
+	Glued int
+}
+
+func endsInAssetChar(tok string) bool {
+	if tok == "" {
+		return false
+	}
+	c := tok[len(tok)-1]
+	return (c >= 'A' && c <= 'Z') || (c >= '0' && c <= '9') || c == '/'
+}
+
+func (l *GlueLayout) Sep(i int, prev, next string) string {
+	cand := " "
+	if len(l.Seps) > 0 {
+		cand = l.Seps[i%len(l.Seps)]
+	}
+	isComment := len(cand) >= 2 && cand[0] == '/' && (cand[1] == '*' || cand[1] == '/')
+	if isComment && endsInAssetChar(prev) && next != "" && SepOK(prev, " "+cand, next) {
+		l.Glued++
+		if l.Pad {
+			return " " + cand
+		}
+		return cand
+	}
+	if SepOK(prev, cand, next) {
+		return cand
+	}
+	if prev == "" || next == "" {
+		return ""
+	}
+	return "\n"
+}
+
 // SepOK: does prev+sep+next lex as exactly [prev, next]?
 func SepOK(prev, sep, next string) bool {
 	var want []string
